@@ -326,6 +326,11 @@ func affinePhi(phi *ssa.Phi) *IndVar {
 	if len(phi.Edges) < 2 {
 		return nil
 	}
+	if b, ok := phi.Type().Underlying().(*types.Basic); ok && b.Info()&types.IsFloat != 0 {
+		// a floating-point accumulator is not start + k·step: every addition rounds, and
+		// the error grows with the trip count (x += 1/65535 ends a whole step short of 1)
+		return nil
+	}
 	// one edge from outside the loop (the start value); every other edge — the latch, and
 	// one more per `continue` — carries the same phi ± step value
 	iv := &IndVar{Phi: phi}
